@@ -326,4 +326,288 @@ theorem buffer_bound_counterexample :
 example : BufferBound { limit := none, thr := none, store := false } false .none (fun d => .one d) := by
   intro L hL; simp at hL
 
+/-! ### streamed_exact, stored_iff_option -/
+
+/-- what the callable (or its absence) makes of one received chunk / of the end of the message -/
+def onData (useF : Bool) (f : Bytes → Ret) (c : Bytes) : List Bytes := if useF then normData (f c) else [c]
+def onEnd (useF : Bool) (f : Bytes → Ret) : List Bytes := if useF then normEnd (f []) else []
+
+/-- a body in the stream state: chunk by chunk, in order, then the end chunks; the flow keeps them iff store -/
+private theorem stream_run (st : St) (hp : st.phase = .stream) (chunks : List Bytes) :
+    let r := run o resp pol f st (chunks.map Ev.data ++ [Ev.eom])
+    dataOf r.2 = chunks.flatMap (onData st.useF f) ++ onEnd st.useF f ∧
+    r.1.phase = .done ∧
+    r.1.content = (if o.store then some (st.buf ++ (dataOf r.2).flatten) else st.content) ∧
+    r.1.buf = (if o.store then [] else st.buf) := by
+  induction chunks generalizing st with
+  | nil =>
+    simp only [List.map_nil, List.nil_append, run, step, hp, relay, List.flatMap_nil]
+    simp only [List.append_nil, dataOf_append, dataOf_map, onEnd]
+    cases o.store <;> simp [dataOf]
+  | cons c cs ih =>
+    have hstep : step o resp pol f st (Ev.data c) =
+        ({ st with buf := if o.store then st.buf ++ (onData st.useF f c).flatten else st.buf },
+         (onData st.useF f c).map Out.sendData) := by
+      simp [step, hp, relay, onData]
+    have := ih { st with buf := if o.store then st.buf ++ (onData st.useF f c).flatten else st.buf } hp
+    simp only [List.map_cons, List.cons_append, run, hstep, dataOf_append, dataOf_map, List.flatMap_cons]
+    obtain ⟨i1, i2, i3, i4⟩ := this
+    refine ⟨by rw [i1]; simp [List.append_assoc], i2, ?_, ?_⟩
+    · rw [i3]; cases o.store <;> simp [List.append_assoc]
+    · rw [i4]; cases o.store <;> simp
+
+/-- **streamed_exact.** If the headers put the flow into the stream state (threshold exceeded by Content-Length, or the
+    addon enabled streaming), then for EVERY chunk list the peer is sent, in order, exactly `f`'s output for each chunk
+    followed by `f b""`'s output (or the chunks themselves when `.stream` is not a callable), and the flow ends done. -/
+theorem streamed_exact (exp : ExpSize) (chunks : List Bytes)
+    (hs : (step o resp pol f init (.headers exp false)).1.phase = .stream) :
+    let s1 := (step o resp pol f init (.headers exp false)).1
+    let r := run o resp pol f s1 (chunks.map Ev.data ++ [Ev.eom])
+    dataOf r.2 = (if s1.useF then chunks.flatMap (fun c => normData (f c)) ++ normEnd (f []) else chunks) ∧
+    r.1.phase = .done := by
+  intro s1 r
+  obtain ⟨h1, h2, _, _⟩ := stream_run o resp pol f s1 hs chunks
+  refine ⟨?_, h2⟩
+  show dataOf r.2 = _
+  rw [show dataOf r.2 = _ from h1]
+  have e0 : onData false f = fun c => [c] := by funext c; simp [onData]
+  have e1 : onData true f = fun c => normData (f c) := by funext c; simp [onData]
+  cases hu : s1.useF
+  · simp [e0, onEnd]
+  · simp [e1, onEnd]
+
+/-- **stored_iff_option.** A message streamed from the headers on keeps exactly the bytes that were delivered when
+    store_streamed_bodies is on, keeps nothing otherwise, and its buffer is empty afterwards. -/
+theorem stored_iff_option (exp : ExpSize) (chunks : List Bytes)
+    (hs : (step o resp pol f init (.headers exp false)).1.phase = .stream) :
+    let s1 := (step o resp pol f init (.headers exp false)).1
+    let r := run o resp pol f s1 (chunks.map Ev.data ++ [Ev.eom])
+    r.1.content = (if o.store then some (dataOf r.2).flatten else none) ∧ r.1.buf = [] := by
+  intro s1 r
+  obtain ⟨_, _, h3, h4⟩ := stream_run o resp pol f s1 hs chunks
+  have hb : s1.buf = [] ∧ s1.content = none := by
+    have : init.phase = .waitHeaders := rfl
+    cases pol <;> cases hc : check o exp [] <;> simp [s1, step, this, hc, init]
+  refine ⟨?_, ?_⟩
+  · show r.1.content = _
+    rw [show r.1.content = _ from h3, hb.1, hb.2]; simp [r]
+  · show r.1.buf = _
+    rw [show r.1.buf = _ from h4, hb.1]; simp
+
+/-- **unstored_stream_holds_nothing.** "relayed without buffering": without store_streamed_bodies a flow in the stream
+    state never holds a byte, whatever arrives. -/
+theorem unstored_stream_holds_nothing (hstore : o.store = false) (st : St)
+    (hp : st.phase = .stream ∨ st.phase = .done) (hb : st.buf = []) (evs : List Ev) :
+    ∀ n ∈ samples o resp pol f st evs, n = 0 := by
+  induction evs generalizing st with
+  | nil => simp [samples]
+  | cons e es ih =>
+    have hnext : ((step o resp pol f st e).1.phase = .stream ∨ (step o resp pol f st e).1.phase = .done) ∧
+        (step o resp pol f st e).1.buf = [] := by
+      rcases hp with hp | hp
+      · cases e <;> simp [step, hp, relay, hstore, hb]
+      · rw [step_done o resp pol f st hp]; exact ⟨Or.inr hp, hb⟩
+    intro n hn
+    simp only [samples, List.mem_cons] at hn
+    rcases hn with rfl | hn
+    · simp [hnext.2]
+    · exact ih _ hnext.1 hnext.2 n hn
+
+/-! ### relayed_exact_any_chunking -/
+
+private theorem relay_noF (st : St) (hu : st.useF = false) (hp : st.phase = .consume ∨ st.phase = .stream)
+    (chunks : List Bytes) :
+    let r := run o resp pol f st (chunks.map Ev.data ++ [Ev.eom])
+    r.1.phase = .done →
+    (dataOf r.2).flatten = (if st.phase = .consume then st.buf else []) ++ chunks.flatten := by
+  induction chunks generalizing st with
+  | nil =>
+    rcases hp with hp | hp
+    · intro r _
+      simp only [r, List.map_nil, List.nil_append, run, step, hp]
+      by_cases hb : st.buf = [] <;> simp [hb, dataOf]
+    · intro r _
+      simp [r, run, step, hp, hu, relay, dataOf]
+  | cons c cs ih =>
+    rcases hp with hp | hp
+    · intro r hdone
+      simp only [r, List.map_cons, List.cons_append, run] at hdone ⊢
+      cases hc : check o st.exp (st.buf ++ c)
+      · -- pass
+        have hstep : step o resp pol f st (Ev.data c) = ({ st with buf := st.buf ++ c }, []) := by
+          simp [step, hp, hc]
+        rw [hstep] at hdone ⊢
+        have := ih { st with buf := st.buf ++ c } hu (Or.inl hp) hdone
+        simp only [List.nil_append]
+        rw [this]; simp [hp, List.append_assoc]
+      · -- abort: the run cannot end done
+        have hstep : (step o resp pol f st (Ev.data c)).1.phase = .errored := by simp [step, hp, hc]
+        rw [run_errored o resp pol f _ hstep] at hdone
+        rw [hstep] at hdone; cases hdone
+      · by_cases hb : st.buf ++ c = []
+        · have hb' := hb
+          simp at hb'
+          have hstep : step o resp pol f st (Ev.data c) = ({ st with buf := st.buf ++ c }, []) := by
+            rw [hb] at hc
+            simp [step, hp, hc, hb'.1, hb'.2]
+          rw [hstep] at hdone ⊢
+          have := ih { st with buf := st.buf ++ c } hu (Or.inl hp) hdone
+          simp only [List.nil_append]
+          rw [this]; simp [hp, List.append_assoc]
+        · have hstep : step o resp pol f st (Ev.data c) =
+              ({ st with buf := if o.store then st.buf ++ c else [], phase := .stream, useF := false },
+               [Out.sendHead, Out.sendData (st.buf ++ c)]) := by
+            simp [step, hp, hc, hb, relay]
+          rw [hstep] at hdone ⊢
+          have := ih { st with buf := if o.store then st.buf ++ c else [], phase := .stream, useF := false }
+            rfl (Or.inr rfl) hdone
+          rw [dataOf_append]
+          simp only [List.flatten_append]
+          rw [this]; simp [hp, dataOf, List.append_assoc]
+    · intro r hdone
+      simp only [r, List.map_cons, List.cons_append, run] at hdone ⊢
+      have hstep : step o resp pol f st (Ev.data c) =
+          ({ st with buf := if o.store then st.buf ++ c else st.buf }, [Out.sendData c]) := by
+        simp [step, hp, hu, relay]
+      rw [hstep] at hdone ⊢
+      have := ih { st with buf := if o.store then st.buf ++ c else st.buf } hu (Or.inr hp) hdone
+      rw [dataOf_append]
+      simp only [List.flatten_append]
+      rw [this]; simp [hp, dataOf]
+
+/-- **relayed_exact_any_chunking.** When `.stream` is not a callable, every complete message that ends `done` delivers
+    exactly the received bytes — whether it was buffered to the end, streamed from the headers on, or switched to
+    streaming in the middle, and for every way of cutting the body into chunks. -/
+theorem relayed_exact_any_chunking (hpol : pol ≠ .callable) (exp : ExpSize) (endS : Bool) (chunks : List Bytes)
+    (hdone : (run o resp pol f init (.headers exp endS :: (chunks.map Ev.data ++ [Ev.eom]))).1.phase = .done) :
+    (dataOf (run o resp pol f init (.headers exp endS :: (chunks.map Ev.data ++ [Ev.eom]))).2).flatten
+      = chunks.flatten := by
+  simp only [run] at hdone ⊢
+  have hi : init.phase = .waitHeaders := rfl
+  -- the state after the headers
+  have hcases : (step o resp pol f init (.headers exp endS)).1.phase = .errored ∨
+      ((step o resp pol f init (.headers exp endS)).1.useF = false ∧
+       (step o resp pol f init (.headers exp endS)).1.buf = [] ∧
+       ((step o resp pol f init (.headers exp endS)).1.phase = .consume ∨
+        (step o resp pol f init (.headers exp endS)).1.phase = .stream) ∧
+       dataOf (step o resp pol f init (.headers exp endS)).2 = []) := by
+    cases endS <;> cases pol <;> cases hc : check o exp [] <;>
+      simp [step, hi, hc, init, dataOf, abortOuts] at hpol ⊢
+  rcases hcases with herr | ⟨hu, hb, hp, hd⟩
+  · rw [run_errored o resp pol f _ herr] at hdone
+    rw [herr] at hdone; cases hdone
+  · have := relay_noF o resp pol f _ hu hp chunks hdone
+    rw [dataOf_append, hd]
+    simp only [List.nil_append]
+    rw [this, hb]; simp
+
+/-- two chunkings of the same body deliver the same bytes -/
+theorem chunking_independent (hpol : pol ≠ .callable) (exp : ExpSize) (endS : Bool) (c1 c2 : List Bytes)
+    (hsame : c1.flatten = c2.flatten)
+    (h1 : (run o resp pol f init (.headers exp endS :: (c1.map Ev.data ++ [Ev.eom]))).1.phase = .done)
+    (h2 : (run o resp pol f init (.headers exp endS :: (c2.map Ev.data ++ [Ev.eom]))).1.phase = .done) :
+    (dataOf (run o resp pol f init (.headers exp endS :: (c1.map Ev.data ++ [Ev.eom]))).2).flatten =
+    (dataOf (run o resp pol f init (.headers exp endS :: (c2.map Ev.data ++ [Ev.eom]))).2).flatten := by
+  rw [relayed_exact_any_chunking o resp pol f hpol exp endS c1 h1,
+      relayed_exact_any_chunking o resp pol f hpol exp endS c2 h2, hsame]
+
+/-! ### non-vacuity -/
+
+-- streamed_exact / stored_iff_option: the hypothesis holds e.g. for an addon that installs a callable
+example : (step { limit := none, thr := none, store := true } false .callable (fun d => .many [d, d]) init
+    (.headers .unknown false)).1.phase = .stream := by decide
+-- ... and for Content-Length above stream_large_bodies
+example : (step { limit := some 10, thr := some 3, store := false } true .none (fun d => .one d) init
+    (.headers (.known 5) false)).1.phase = .stream := by decide
+-- the model is not constant: duplicated chunks + end marker are delivered in order
+example : dataOf (run { limit := none, thr := none, store := true } false .callable
+    (fun d => .many [d, d]) init [.headers .unknown false, .data [1], .data [2, 3], .eom]).2
+    = [[1], [1], [2, 3], [2, 3], [], []] := by decide
+-- over_limit_errors: the hypothesis is satisfiable (late case), and the model does error
+example : KnownTooLarge { limit := some 3, thr := none, store := false }
+    (run { limit := some 3, thr := none, store := false } false .none (fun d => .one d) init
+      [.headers .unknown false, .data [1, 2]]).1 (.data [3, 4]) :=
+  ⟨3, rfl, Or.inr ⟨by decide, [3, 4], rfl, by decide, by decide⟩⟩
+-- relayed_exact_any_chunking: a late switch that ends done
+example : (run { limit := none, thr := some 2, store := false } false .none (fun d => .one d) init
+    (.headers .unknown false :: ([[1, 2], [3], [4]].map Ev.data ++ [Ev.eom]))).1.phase = .done := by decide
+
+/-! ### parse_size -/
+
+/-- the regenerated SIZE_UNITS table is b,k,m,g,t = 1024^0..4 -/
+theorem sizeUnits_table :
+    Gen.C07.sizeUnits = [([0x62], 1024 ^ 0), ([0x6b], 1024 ^ 1), ([0x6d], 1024 ^ 2), ([0x67], 1024 ^ 3), ([0x74], 1024 ^ 4)] := by
+  decide +kernel
+
+/-- decimal value of a digit string, most significant first -/
+def decVal (acc : Nat) (ds : Bytes) : Nat := ds.foldl (fun a c => a * 10 + digitVal c) acc
+
+private theorem digitsTail_digits (acc : Nat) (ds rest : Bytes) (hd : ∀ c ∈ ds, isDigit c = true)
+    (hr : ∀ c r, rest = c :: r → isDigit c = false ∧ c ≠ 0x5f) :
+    digitsTail acc false (ds ++ rest) = some (decVal acc ds, rest) := by
+  induction ds generalizing acc with
+  | nil =>
+    cases rest with
+    | nil => simp [digitsTail, decVal]
+    | cons c r =>
+      obtain ⟨h1, h2⟩ := hr c r rfl
+      simp [digitsTail, decVal, h1, h2]
+  | cons d ds ih =>
+    have hdd : isDigit d = true := hd d (by simp)
+    simp only [List.cons_append, digitsTail, hdd, if_true, decVal]
+    exact ih _ (fun c hc => hd c (by simp [hc]))
+
+private theorem digit_facts : ∀ n : Fin 256, isDigit (UInt8.ofNat n.val) = true →
+    isSpace (UInt8.ofNat n.val) = false ∧ UInt8.ofNat n.val ≠ 0x2d ∧ UInt8.ofNat n.val ≠ 0x2b := by
+  decide +kernel
+
+private theorem digit_facts' (c : UInt8) (h : isDigit c = true) : isSpace c = false ∧ c ≠ 0x2d ∧ c ≠ 0x2b := by
+  have := digit_facts ⟨c.toNat, UInt8.toNat_lt c⟩
+  simpa [h] using this
+
+private theorem pyInt_digits_then (d : UInt8) (ds rest : Bytes) (hd : isDigit d = true)
+    (hds : ∀ c ∈ ds, isDigit c = true) (hr : ∀ c r, rest = c :: r → isDigit c = false ∧ c ≠ 0x5f) :
+    pyInt (d :: (ds ++ rest)) =
+      (if (rest.dropWhile isSpace).isEmpty then some ((decVal 0 (d :: ds) : Nat) : Int) else none) := by
+  obtain ⟨h1, h2, h3⟩ := digit_facts' d hd
+  have hdt := digitsTail_digits (digitVal d) ds rest hds hr
+  simp [pyInt, List.dropWhile, h1, h2, h3, hd, hdt, decVal]
+
+/-- **parseSize_decimal.** A non-empty string of decimal digits parses to its value. -/
+theorem parseSize_decimal (d : UInt8) (ds : Bytes) (hd : isDigit d = true) (hds : ∀ c ∈ ds, isDigit c = true) :
+    parseSize (d :: ds) = some ((decVal 0 (d :: ds) : Nat) : Int) := by
+  have := pyInt_digits_then d ds [] hd hds (by intro c r h; cases h)
+  simp at this
+  simp [parseSize, parseSizeWith, this]
+
+/-- **parseSize_suffix.** Digits followed by one unit letter of the table parse to value × multiplier. -/
+theorem parseSize_suffix (d : UInt8) (ds : Bytes) (hd : isDigit d = true) (hds : ∀ c ∈ ds, isDigit c = true)
+    (u : UInt8) (mult : Nat) (hu : ([u], mult) ∈ Gen.C07.sizeUnits) :
+    parseSize (d :: (ds ++ [u])) = some (((decVal 0 (d :: ds) : Nat) : Int) * (mult : Int)) := by
+  have hwhole : ∀ u : UInt8, (u = 0x62 ∨ u = 0x6b ∨ u = 0x6d ∨ u = 0x67 ∨ u = 0x74) →
+      pyInt (d :: (ds ++ [u])) = none := by
+    intro u hu
+    have := pyInt_digits_then d ds [u] hd hds (by
+      intro c r h; simp at h; obtain ⟨rfl, _⟩ := h
+      rcases hu with rfl | rfl | rfl | rfl | rfl <;> decide)
+    rw [this]
+    have : isSpace u = false := by rcases hu with rfl | rfl | rfl | rfl | rfl <;> decide
+    simp [List.dropWhile, this]
+  have hdrop : (d :: (ds ++ [u])).dropLast = d :: ds := by
+    rw [show d :: (ds ++ [u]) = (d :: ds) ++ [u] by simp, List.dropLast_concat]
+  have hnum := pyInt_digits_then d ds [] hd hds (by intro c r h; cases h)
+  simp at hnum
+  rw [sizeUnits_table] at hu
+  simp at hu
+  have hsuf : ∀ k : UInt8, ([k] : Bytes).isSuffixOf (d :: (ds ++ [u])) = (k == u) := by
+    intro k
+    rw [show d :: (ds ++ [u]) = (d :: ds) ++ [u] by simp]
+    simp [List.isSuffixOf, List.reverse_append, List.isPrefixOf]
+  rcases hu with ⟨rfl, rfl⟩ | ⟨rfl, rfl⟩ | ⟨rfl, rfl⟩ | ⟨rfl, rfl⟩ | ⟨rfl, rfl⟩ <;>
+    simp [parseSize, parseSizeWith, hwhole, sizeUnits_table, unitLoop, hsuf, hdrop, hnum]
+
+example : parseSize [0x31, 0x6b] = some 1024 := by decide
+example : parseSize [0x31, 0x4b] = none := by decide
+example : parseSize [] = none := by decide
+
 end MitmVerif.Props.C07
